@@ -23,6 +23,7 @@ import numpy as np
 import core
 import findings
 import gen
+import loadtol
 
 PID = "C16"
 HERE = os.path.dirname(os.path.abspath(__file__))
@@ -76,15 +77,55 @@ class Worker:
             self.p.kill()
 
 
-def run_lanes(lanes):
+CAL = {"ref": None, "unit": loadtol.NOMINAL_UNIT, "rescued": [], "confirmed": [], "slowdown_at_start": 1.0}
+
+
+def calibrate():
+    """the reference computation in a worker of its own, before anything else runs: the CPU unit of every time budget of this run"""
+    w = Worker()
+    a = w.call({"op": "calibrate"}, 300)
+    w.close()
+    ref = a.get("out", {}).get("ok")
+    if isinstance(ref, dict) and ref.get("cpu", 0) > 0:
+        CAL["ref"] = ref
+        CAL["unit"] = ref["cpu"]
+    CAL["slowdown_at_start"] = round(loadtol.slowdown(CAL["ref"]), 2)
+    return CAL
+
+
+def budget_cpu(size):
+    """CPU seconds allowed for one (warmed) call on an input+output of `size` cells + Σ shape: 70 units + 3.5e-4 units per cell, where one unit is
+    the CPU time of the reference computation measured at the start of this run (2 s + 10 µs per cell on the machine it was written on)"""
+    return CAL["unit"] * (70.0 + 3.5e-4 * size)
+
+
+def hang_limit(deadline, size=None):
+    """wall-clock seconds after which a call is SUSPECTED to hang: the stated deadline or ten times the CPU budget, stretched by the contention the
+    reference computation saw and by the load per CPU right now"""
+    base = max(float(deadline), 10.0 * budget_cpu(size) if size is not None else 0.0)
+    return base * loadtol.slowdown(CAL["ref"])
+
+
+def run_lanes(lanes, alone=False):
     """lanes: list of lists of (case, deadline).  One worker subprocess per lane, lanes in parallel; a worker that missed a
-    deadline or died is replaced."""
+    deadline or died is replaced.  A missed deadline is only a suspicion here (see confirm_timeouts)."""
     results = [[None] * len(l) for l in lanes]
 
     def lane(i):
         w = Worker()
+        misses = {}
         for j, (case, deadline) in enumerate(lanes[i]):
-            a = w.call(case, deadline)
+            # a family whose calls keep missing their deadline is not run to the end: two suspects are enough (they are confirmed alone afterwards)
+            bucket = case.get("bucket")
+            if bucket is not None and misses.get(bucket, 0) >= 2:
+                results[i][j] = {"out": {"err": "skipped", "why": f"two calls of the family {bucket} missed their deadline already"}}
+                continue
+            lim = hang_limit(deadline)
+            a = w.call({k: v for k, v in case.items() if k != "bucket"}, lim)
+            if a["out"].get("err") == "timeout" and bucket is not None:
+                misses[bucket] = misses.get(bucket, 0) + 1
+            if a["out"].get("err") == "timeout":
+                a["out"]["deadline"] = round(lim, 1)
             results[i][j] = a
             if a["out"].get("err") in ("timeout", "crash"):
                 w.close()
@@ -97,6 +138,42 @@ def run_lanes(lanes):
     for t in ts:
         t.join()
     return results
+
+
+def run_alone(case, deadline):
+    """one case in a fresh worker while nothing else of this check runs"""
+    return run_lanes([[(case, deadline)]])[0][0]
+
+
+def confirm_timeouts(lanes, results, log):
+    """every missed deadline is retried ALONE (all lanes have finished) in a fresh worker, with twice the limit; only a second miss stands"""
+    for i, lane in enumerate(lanes):
+        for j, (case, deadline) in enumerate(lane):
+            a = results[i][j]
+            if a is not None and a["out"].get("err") == "timeout":
+                log(f"C16: {case.get('op')} missed its deadline ({a['out'].get('deadline')} s); retrying alone")
+                b = run_alone({k: v for k, v in case.items() if k != "bucket"}, 2 * deadline)
+                tag = {"op": case.get("op"), "family": case.get("family"), "first_limit_s": a["out"].get("deadline")}
+                if b["out"].get("err") == "timeout":
+                    b["out"]["confirmed_by_solitary_retry"] = True
+                    CAL["confirmed"].append(tag)
+                else:
+                    CAL["rescued"].append(dict(tag, kind="deadline", secs_alone=b.get("secs"), cpu_alone=b.get("cpu")))
+                results[i][j] = b
+
+
+def over_budget(a, size, case, deadline=150):
+    """the CPU time of the call against its budget; a miss is re-measured alone (this runs after all lanes have finished) and stands only if it
+    repeats.  -> message | None"""
+    if size is None or a.get("cpu", 0) <= budget_cpu(size):
+        return None
+    b = run_alone(case, deadline)
+    first = a.get("cpu")
+    if "ok" in b.get("out", {}) and b.get("cpu", 0) <= budget_cpu(size):
+        CAL["rescued"].append({"op": case.get("op"), "kind": "cpu-budget", "cpu_first": first, "cpu_alone": b.get("cpu"), "budget": round(budget_cpu(size), 2)})
+        return None
+    return (f"took {first} s of CPU time ({b.get('cpu')} s when re-run alone), budget {budget_cpu(size):.2f} s = {70 + 3.5e-4 * size:.0f} units of "
+            f"{CAL['unit']:.4f} s (the reference computation of this run) for size {size}")
 
 
 # ---------------------------------------------------------------------------------------------------
@@ -453,6 +530,7 @@ def unmodelled_cases(rng, quick):
     cs.append(("dok:x[i,j,k]", {"op": "getitem", "x": x3, "index": [["i", hit[0]], ["i", hit[1]], ["i", hit[2]]], "format": "dok"}, ("coo", ["getitem", x3, [["i", hit[0]], ["i", hit[1]], ["i", hit[2]]]]), 60, None, s3))
     cs.append(("dok:x[::2]", {"op": "getitem", "x": x3, "index": [["s", None, None, 2]], "format": "dok"}, ("coo", ["getitem", x3, [["s", None, None, 2]]]), 60, None, s3))
     cs += odd_extent_cases(rng, quick)
+    cs += long_axis_cases(rng, quick)
     cs += broadcast_all_cases(rng, quick)
     return cs
 
@@ -495,6 +573,36 @@ def odd_extent_cases(rng, quick):
         taken = {(k,): look[v] for k, v in enumerate(pick) if v in look}
         cs.append((f"odd:take(axis=None):{tag}", {"lane": 6, "op": "fn", "name": "take", "xs": [x], "args": [{"array": pick}], "kwargs": {"axis": None}},
                    ("json", coo_of([len(pick)], taken)), 120, None, size))
+    return cs
+
+
+def long_axis_cases(rng, quick):
+    """indexing along ONE astronomically long axis (2**40 .. 2**62 positions) holding one or a few stored entries: slices of every sign, an integer
+    on the short axis of a 2-d array; COO and DOK against the Lean model.  The size measure leaves the extent out on purpose: the call has to cost
+    the stored entries, not the axis (`_compute_mask` leaves the pair search for the linear filter).  Lane 6."""
+    cs = []
+    for n in ((2 ** 40, 2 ** 62) if quick else (2 ** 40, 2 ** 50, 2 ** 62, 2 ** 62 + 12345)):
+        for nnz in (1, 5):
+            pos = sorted({int(v) for v in rng.integers(2, n - 2, size=nnz)})
+            x1 = {"shape": [n], "coords": [[q] for q in pos], "data": list(range(1, len(pos) + 1)), "fill": 0}
+            a_, b_ = pos[0] - 1, pos[-1] + 2
+            idx1 = [[["s", 1, None, None]], [["s", None, -1, None]], [["s", a_, b_, 3]], [["s", None, None, 2]], [["s", None, None, -1]], [["s", b_, a_, -2]],
+                    [["s", 3, -3, None]]]
+            n2 = min(n, 2 ** 60)          # 3 * n2 < 2**63: the linear index of the 2-d array stays in the intp range
+            pos = [q % n2 for q in pos] if n2 < n else pos
+            pos = sorted(set(pos))
+            a_ = pos[0] - 1
+            x2 = {"shape": [3, n2], "coords": sorted([[1, pos[0]]] + [[int(rng.integers(0, 3)), q] for q in pos[1:]]), "data": list(range(1, len(pos) + 1)), "fill": 0}
+            idx2 = [[["i", 1], ["s", a_, None, None]], [["s", None, None, None], ["s", None, None, 2]], [["i", 1], ["s", None, -1, None]]]
+            for fname, fmt in (("coo", None), ("dok", "dok")):
+                for x, idxs in ((x1, idx1), (x2, idx2)):
+                    for ix in idxs:
+                        if quick and ix not in (idx1[0], idx1[1], idx2[0]) and rng.random() < 0.6:
+                            continue
+                        w = {"lane": 6, "op": "getitem", "x": x, "index": ix, "bucket": f"long:{fname}"}
+                        if fmt:
+                            w["format"] = fmt
+                        cs.append((f"long:{fname}:{len(x['shape'])}d:2^{n.bit_length() - 1}:nnz{len(pos)}", w, ("coo", ["getitem", x, ix]), 20, None, cells(x) * 2 + 1000))
     return cs
 
 
@@ -740,8 +848,7 @@ def mixed_cases(rng, quick):
 
 
 def time_budget(size):
-    """seconds allowed for one (warmed) call on an input+output of `size` cells + Σ shape: linear, generous"""
-    return 2.0 + 1.0e-5 * size
+    return budget_cpu(size)
 
 
 def result_as_coo(out):
@@ -792,10 +899,15 @@ def run(ctx):
     ctx.trusted = TRUSTED
     ctx.assumptions = ["int64 values small enough not to overflow (the model computes in unbounded integers)",
                        "tracemalloc sees NumPy's and Python's allocations, not numba's NRT heap",
-                       "time budget 2 s + 10 µs per cell of (stored cells in + out + Σ shape) on this machine"]
+                       "time budgets are CPU time of the worker (time.process_time): 70 + 3.5e-4 per cell of (stored cells in + out + Σ shape) units, one unit being the "
+                       "CPU time of a reference computation (NumPy sort of 10^6 doubles + a jitted loop) measured at the start of the run; wall-clock limits only detect "
+                       "hangs (stretched by the observed contention and the load per CPU) and every miss is confirmed by a retry that runs alone"]
     core.prove(ctx, PID, uses=["normalizeAxisInt", "checkIndexInt", "replaceNone", "posifySlice", "posifyInt", "clipSlice", "bcastOk", "bcastDim"])
     rng = gen.rng_for(ctx.seed, PID)
     quick = ctx.quick
+    CAL.update(rescued=[], confirmed=[])
+    calibrate()
+    core.log(f"C16: reference computation {CAL['ref']} (unit {CAL['unit']:.4f} s CPU), slowdown {CAL['slowdown_at_start']}, load/cpu {loadtol.load_per_cpu():.2f}")
     big_variants(ctx, rng, 100 if quick else 1000)
 
     cases = mk_cases(rng, quick)
@@ -834,6 +946,7 @@ def run(ctx):
         where_m.append((ln, len(lanes[ln]) - 1))
     t0 = time.time()
     res = run_lanes(lanes)
+    confirm_timeouts(lanes, res, core.log)
     ctx.notes["worker_wall_s"] = round(time.time() - t0, 1)
 
     # ---- modelled families: model answers, cost answers ----------------------------------------
@@ -883,8 +996,8 @@ def run(ctx):
             if peak > C_MAX * 8 * cost + SLACK:
                 msg = f"tracemalloc peak {peak} bytes exceeds {C_MAX}*8*opCost + slack = {C_MAX * 8 * cost + SLACK} (opCost {cost} cells, size {size})"
                 ctx.fail("C", fam, desc, msg, finding=findings.classify(PID, fam, desc, msg))
-            if secs > time_budget(size):
-                msg = f"took {secs}s, budget {time_budget(size):.1f}s for size {size}"
+            msg = over_budget(a, size, c["w"])
+            if msg:
                 ctx.fail("C", fam, desc, msg, finding=findings.classify(PID, fam, desc, msg))
         if c.get("then_tocoo") and "ok" in mo:
             tocoo_reqs.append(["gcxs_tocoo_big", mo["ok"]])
@@ -893,7 +1006,9 @@ def run(ctx):
     if tocoo_reqs:
         touts = ctx.driver.run(tocoo_reqs)
         lane = [({"op": "tocoo", "g": g, "warm": True}, 150) for _, g in tocoo_cases]
-        tres = run_lanes([lane])[0]
+        tres_ = run_lanes([lane])
+        confirm_timeouts([lane], tres_, core.log)
+        tres = tres_[0]
         creq = [["cost", "tocoo", g["shape"], len(g["data"])] for _, g in tocoo_cases]
         cres = ctx.driver.run(creq)
         for (c, g), mo, a, co in zip(tocoo_cases, touts, tres, cres):
@@ -923,12 +1038,16 @@ def run(ctx):
             midx.append(k)
     mo2 = dict(zip(midx, ctx.driver.run(mreqs2)))
     timing = {}
+    skipped_after_misses = []
     for k, ((fam, w, ref, deadline, expect, size), (ln, j)) in enumerate(zip(extra, where_x)):
         a = res[ln][j]
         out = a["out"]
         desc = small_case(w)
         desc["family"] = fam
         ctx.case(f"C:{fam.split(':')[0]}", desc)
+        if out.get("err") == "skipped":
+            skipped_after_misses.append(fam)
+            continue
         if "secs" in a:
             timing[fam] = {"secs": a["secs"], "peak": a.get("peak")}
         if out.get("err") in ("timeout", "crash", "memory"):
@@ -957,8 +1076,9 @@ def run(ctx):
             msg = f"result differs from the sparse reference: implementation {short(got)} reference {short(want)}"
             ctx.fail("C", fam, desc, msg, finding=findings.classify(PID, fam, desc, msg))
             continue
-        if size is not None and a.get("secs", 0) > time_budget(size):
-            msg = f"took {a.get('secs')}s, budget {time_budget(size):.1f}s for size {size}"
+        msg = over_budget(a, size, dict({k_: v_ for k_, v_ in w.items() if k_ not in ("slow_lane", "lane")}, warm=True,
+                                        **({"want_coo": True} if ref is not None and (w.get("format") or w.get("format_a")) else {})), deadline)
+        if msg:
             ctx.fail("C", fam, desc, msg, finding=findings.classify(PID, fam, desc, msg))
         if size is not None and a.get("peak", 0) > C_MAX * 8 * size + SLACK:
             msg = f"tracemalloc peak {a.get('peak')} bytes exceeds {C_MAX}*8*size (size {size} = stored cells in/out + Σ shape)"
@@ -998,9 +1118,14 @@ def run(ctx):
             if r.get("peak", 0) > C_MAX * 8 * b["size"] + SLACK:
                 msg = f"tracemalloc peak {r.get('peak')} bytes exceeds {C_MAX}*8*size (size {b['size']} = stored cells + Σ shape)"
                 ctx.fail("C", fam, desc, msg, finding=findings.classify(PID, fam, desc, msg))
-            if r.get("secs", 0) > time_budget(b["size"]):
-                msg = f"took {r.get('secs')}s, budget {time_budget(b['size']):.1f}s for size {b['size']}"
-                ctx.fail("C", fam, desc, msg, finding=findings.classify(PID, fam, desc, msg))
+            if r.get("cpu", 0) > budget_cpu(b["size"]):
+                r2 = run_alone({"op": "reduce_batch", "x": b["w"]["x"], "items": [item]}, 600)
+                it2 = (r2.get("out", {}).get("ok") or {}).get("items", [{}])[0]
+                if it2.get("cpu", 1e9) <= budget_cpu(b["size"]):
+                    CAL["rescued"].append({"op": "reduce_batch", "item": item, "kind": "cpu-budget", "cpu_first": r.get("cpu"), "cpu_alone": it2.get("cpu")})
+                else:
+                    msg = f"took {r.get('cpu')} s of CPU time ({it2.get('cpu')} s alone), budget {budget_cpu(b['size']):.2f} s for size {b['size']}"
+                    ctx.fail("C", fam, desc, msg, finding=findings.classify(PID, fam, desc, msg))
     ctx.notes["reduce_sweep"] = sweep_stats
 
     # ---- mixed sparse-dense operations -----------------------------------------------------------------
@@ -1038,8 +1163,8 @@ def run(ctx):
         if a.get("peak", 0) > bound:
             msg = f"tracemalloc peak {a.get('peak')} bytes exceeds {bound} (opCost {c_['cost']} cells = stored cells + the dense operand, size {size})"
             ctx.fail("C", fam, desc, msg, finding=findings.classify(PID, fam, desc, msg))
-        if a.get("secs", 0) > time_budget(size):
-            msg = f"took {a.get('secs')}s, budget {time_budget(size):.1f}s for size {size}"
+        msg = over_budget(a, size, dict(w, warm=True), 120)
+        if msg:
             ctx.fail("C", fam, desc, msg, finding=findings.classify(PID, fam, desc, msg))
     ctx.notes["mixed"] = mixed_stats
 
@@ -1056,6 +1181,10 @@ def run(ctx):
         if co["cost"] > co["K"] * co["size"]:
             ctx.fail("A", "cost:product", {"family": fam}, f"opCost {co['cost']} exceeds K*size = {co['K']}*{co['size']} (contradicts dot_csr_csr_cost_bound)")
     ctx.notes["dot_cost_model"] = dcm
+    ctx.notes["skipped_after_two_deadline_misses_of_their_family"] = skipped_after_misses
+    ctx.notes["load_tolerance"] = {"reference_computation": CAL["ref"], "unit_cpu_s": CAL["unit"], "slowdown_at_start": CAL["slowdown_at_start"],
+                                   "load_per_cpu_at_end": round(loadtol.load_per_cpu(), 2), "rescued_by_solitary_retry": CAL["rescued"],
+                                   "deadline_misses_confirmed_alone": CAL["confirmed"]}
     ctx.notes["peak_over_8_opCost"] = {f: {"max": max(v), "median": sorted(v)[len(v) // 2], "n": len(v)} for f, v in ratios.items()}
     ctx.notes["calibrated_c"] = C_MAX
     ctx.notes["unmodelled_timing"] = timing
